@@ -467,6 +467,28 @@ def check_c02_case(data):
     return out
 
 
+def check_parse_file(data, tmpdir):
+    """the same bytes through Parser.parse_file: no exception, and the same verdict and error as parse(bytes)"""
+    import os
+    from sievelib.parser import Parser
+    path = os.path.join(tmpdir, "script.sieve")
+    with open(path, "wb") as f:
+        f.write(data)
+    p1 = Parser()
+    try:
+        v1 = p1.parse_file(path)
+    except BaseException as e:
+        return [("parse_file.exception.%s" % type(e).__name__, "%s: %s" % (type(e).__name__, e))]
+    p2 = Parser()
+    try:
+        v2 = p2.parse(data)
+    except BaseException as e:
+        return []      # parse() itself raising is reported by check_c02_case
+    if v1 is not v2 or (v1 is False and p1.error != p2.error):
+        return [("parse_file.differs-from-parse", "parse_file -> %r %r, parse -> %r %r" % (v1, p1.error, v2, p2.error))]
+    return []
+
+
 def bounded_bytes(pid, tier, seed):
     """byte-level mutations of valid scripts: invalid UTF-8, NUL, multi-byte text before the error point, truncation at
     every offset, unterminated strings/comments/text blocks, identifiers colliding with internal class names"""
@@ -482,10 +504,12 @@ def bounded_bytes(pid, tier, seed):
     distinct = set()
     findings = {}
     samples = []
+    import tempfile, shutil
+    tmpdir = tempfile.mkdtemp(prefix="c02files.")
     for data in extra:
         evals += 1
         distinct.add(data)
-        for cls, detail in check_c02_case(data):
+        for cls, detail in check_c02_case(data) + check_parse_file(data, tmpdir):
             findings.setdefault(cls, (data.decode("latin-1"), detail))
     inject = [b"\xff", b"\x00", b"\xc3", "é".encode(), b'"', b"/*", b"#", b"text:", b"{", b"("]
     for data in base:
@@ -502,10 +526,13 @@ def bounded_bytes(pid, tier, seed):
             evals += 1
             distinct.add(d2)
             probs = check_c02_case(d2)
+            if _ % 3 == 0:
+                probs = probs + check_parse_file(d2, tmpdir)
             for cls, detail in probs:
                 findings.setdefault(cls, (d2.decode("latin-1"), detail))
             if not probs and len(samples) < 3:
                 samples.append({"script": d2.decode("latin-1")[-80:], "verdict": "terminated with True/False and a well-formed error"})
+    shutil.rmtree(tmpdir, ignore_errors=True)
     vio = [("%s.P.bytes.%s" % (pid, cls), {"script": s}, d) for cls, (s, d) in sorted(findings.items())]
     return {"name": "byte-mutations", "bound": "%d inputs: truncation of %d rendered scripts at regular offsets, random single "
             "byte-sequence injections (invalid UTF-8, NUL, quote, comment/text openers), and %d hand-picked degenerate inputs"
@@ -828,6 +855,36 @@ def bounded_custom(pid, tier, seed):
                             samples.append({"definition": repr(d)[:160], "use": data.decode("latin-1"), "verdict": "accepted, recorded under the defined names, re-parses equal"})
         finally:
             vars(commands).pop(cls.__name__, None)
+    # re-registration: the same command name registered again with ANOTHER definition (after the first one has been
+    # used) must be parsed according to the new definition
+    actions = [d for d in descs if d[0] == "action" and not d[1]]
+    pairs = [(actions[i], actions[j]) for i in range(min(len(actions), 6)) for j in range(min(len(actions), 12))
+             if i != j and len(actions[i][3]) != len(actions[j][3])][: (12 if tier == "quick" else 40)]
+    for (d1, d2) in pairs:
+        cls1, S1 = custom.make_custom(d1)
+        cls2, S2 = custom.make_custom(d2)
+        shared = type("ReregisteredCommand", (commands.ActionCommand,), {"args_definition": cls1.args_definition, "extension": None})
+        again = type("ReregisteredCommand", (commands.ActionCommand,), {"args_definition": cls2.args_definition, "extension": None})
+        try:
+            commands.add_commands(shared)
+            for v in g.command_variants("reregistered", S1)[:2]:
+                real_parse(b" ".join([b"reregistered"] + v + [b";"]))
+            commands.add_commands(again)
+            table = dict(ref.frozen.COMMANDS)
+            table["reregistered"] = S2
+            for v in g.command_variants("reregistered", S2)[:6] + g.command_variants("reregistered", S1)[:3]:
+                data = b" ".join([b"reregistered"] + v + [b";"])
+                evals += 1
+                distinct.add(b"re:" + data)
+                r = real_parse(data)
+                v2 = ref.verdict(data, table)
+                if r["verdict"] == "exception":
+                    findings.note((pid, "exception"), data.decode("latin-1"), r["exc"])
+                elif v2.status in ("valid", "invalid") and (v2.status == "valid") != (r["verdict"] is True):
+                    findings.note((pid, "reregistered-name-not-parsed-by-its-new-definition"), data.decode("latin-1"),
+                                  "reference (new definition): %s; parser: %r %r" % (v2.status, r["verdict"], r.get("error")))
+        finally:
+            vars(commands).pop("ReregisteredCommand", None)
     # unregistered names remain unknown
     r = real_parse(b'zzznotregistered "x";')
     evals += 1
@@ -861,7 +918,9 @@ def _edits_after(tokens, h, rng, n):
 
 
 QUOTING_VALUES = [b'"x"', b'"a\\"b"', b'"a\\\\"', b'"end\\""', b'"\\"start"', b'"a,b"', b'"[x]"', b'"multi\nline"', b'"caf\xc3\xa9"', b'""',
-                  b'"a\\b"', b'" lead"', b'"\\\\\\""', b'"semi;colon"', b'"{brace}"', b'"#hash"', b'"/*c*/"', b'"a", "b"'[:3]]
+                  b'"a\\b"', b'" lead"', b'"\\\\\\""', b'"semi;colon"', b'"{brace}"', b'"#hash"', b'"/*c*/"', b'"a", "b"'[:3],
+                  # dot-stuffed lines (only meaningful inside the text: templates; elsewhere the script is rejected and skipped)
+                  b'..', b'..stuffed', b'...', b'.dotstart']
 QUOTING_TEMPLATES = [b'require "fileinto"; fileinto %s;', b'if header :is [%s, "z"] [%s] { keep; }', b'if header :contains %s %s { stop; }',
                      b'require "vacation"; vacation :subject %s :addresses [%s] %s;', b'redirect %s;', b'require "reject"; reject %s;',
                      b'if exists [%s] { discard; }', b'if anyof (exists %s, not header :matches %s [%s, %s]) { keep; }',
